@@ -116,3 +116,25 @@ Example C04_example :
   map b_hash (chain (run (init_state ex_g) ex_ops)) = [7; 3].
 Proof. vm_compute. repeat split. Qed.
 Print Assumptions C04_example.
+
+(* ---- the model's header checks ARE the code (translator tie; proof in
+   Proofs/HeaderRefine.v): verify_header — the seq / time / parent-hash /
+   body-hash part of exec_block that C04_append_sound / C04_append_complete rest
+   on — equals, for ALL inputs, the Gallina regenerated from
+   Blockchain.verifyBlockHeader (src/visor/blockchain.go) on every run
+   (Gen/HeaderChecks.v), called with the head's and the block's BkSeq / Time, the
+   two hash comparisons as booleans (hashes are ids in the model) and no error
+   from bc.Head; the translated function's error message is classified into the
+   model's enum (header_err_class). Changing a comparison, the order of the
+   checks or the +1 in verifyBlockHeader breaks a proof obligation here. *)
+From Sky Require Gen.HeaderChecks.
+From Sky Require Import Proofs.LedgerRefine Proofs.HeaderRefine.
+
+Theorem C04_header_checks_is_translated : forall head b,
+  verify_header head b =
+  chk_of header_err_class
+    (HeaderChecks.Blockchain_verifyBlockHeader None
+       (h_prev (b_head b) =? b_hash head) (b_body_actual b =? h_body (b_head b))
+       (h_seq (b_head b)) (h_seq (b_head head)) (h_time (b_head b)) (h_time (b_head head))).
+Proof. exact verify_header_refines. Qed.
+Print Assumptions C04_header_checks_is_translated.
